@@ -8,7 +8,6 @@ package simsync
 import (
 	"bytes"
 	"fmt"
-	"hash/fnv"
 	"runtime"
 	"sort"
 	"strconv"
@@ -57,8 +56,13 @@ type Option struct {
 	Apply  func(int) // for others; receives the drawn parameter
 	NParam int       // >0: a parameter in [0,NParam) is drawn with the option
 	Weight float64   // relative weight inside its class (0 = 1)
-	Anchor string    // identity of this option when it is the default (defaults to Key)
+	// AnchorN, with Key, identifies this option when it is the default: a
+	// task's own yield count, a pipe's segment number, the advance count
+	AnchorN int
 }
+
+// AnchorStr identifies the option as a default (see AnchorN).
+func (o *Option) AnchorStr() string { return o.Key + "/" + strconv.Itoa(o.AnchorN) }
 
 // Decision is a non-default scheduler decision.
 type Decision struct {
@@ -102,8 +106,12 @@ type World struct {
 	farFired bool
 	stopping bool
 	nextID   int
+	exited   int
 	siteSeq  map[string]int
 	sources  []func() []Option
+	optBuf   []Option
+	// number of tasks blocked on a sim lock (wait-for graph is only searched when >= 2)
+	lockBlocked int
 
 	Steps     int
 	Switches  int
@@ -116,7 +124,7 @@ type World struct {
 	Diverged  string
 	Violation string
 	Start     time.Time
-	ClassN    map[byte]int // decisions per class
+	ClassN    [128]int // decisions per class (indexed by class byte)
 	NonDef    int
 	SitePairs map[string]struct{}
 	lastSite  string
@@ -136,17 +144,8 @@ func NewWorld(cfg Config) *World {
 		cfg.VirtCap = 6 * time.Hour
 	}
 	w := &World{cfg: cfg, byGid: map[uint64]*Task{}, notify: make(chan struct{}, 1), siteSeq: map[string]int{},
-		ClassN: map[byte]int{}, SitePairs: map[string]struct{}{}}
+		SitePairs: map[string]struct{}{}}
 	return w
-}
-
-func goid() uint64 {
-	var b [64]byte
-	n := runtime.Stack(b[:], false)
-	s := b[10:n]
-	i := bytes.IndexByte(s, ' ')
-	v, _ := strconv.ParseUint(string(s[:i]), 10, 64)
-	return v
 }
 
 func (w *World) newTask(name string, owned bool) *Task { // w.mu held
@@ -198,7 +197,7 @@ func (w *World) park(t *Task, site string) {
 	t.Site = site
 	t.Yields++
 	t.state = stRunnable
-	w.runnable = append(w.runnable, t)
+	w.addRunnable(t)
 	w.mu.Unlock()
 	w.ping()
 	w.awaitWake(t)
@@ -210,6 +209,9 @@ func (w *World) blockOn(t *Task, lock any, desc string) {
 	t.state = stBlocked
 	t.waitLock = lock
 	t.waitDesc = desc
+	if _, isLock := lock.(lockOwners); isLock {
+		w.lockBlocked++
+	}
 	w.mu.Unlock()
 	w.ping()
 	w.awaitWake(t)
@@ -221,8 +223,11 @@ func (w *World) makeRunnable(ts []*Task) { // w.mu held
 			continue
 		}
 		t.state = stRunnable
+		if _, isLock := t.waitLock.(lockOwners); isLock {
+			w.lockBlocked--
+		}
 		t.waitLock = nil
-		w.runnable = append(w.runnable, t)
+		w.addRunnable(t)
 	}
 	if len(ts) > 0 {
 		w.ping()
@@ -258,6 +263,17 @@ func (w *World) runTask(t *Task, site string, fn func()) {
 		w.mu.Lock()
 		t.state = stExited
 		delete(w.byGid, t.gid)
+		w.exited++
+		if w.exited > 64 && w.exited*2 > len(w.all) {
+			live := w.all[:0]
+			for _, x := range w.all {
+				if x.state != stExited {
+					live = append(live, x)
+				}
+			}
+			w.all = live
+			w.exited = 0
+		}
 		w.mu.Unlock()
 		w.ping()
 	}()
@@ -302,59 +318,59 @@ func (w *World) AddSource(f func() []Option) { w.sources = append(w.sources, f) 
 func (w *World) Elapsed() time.Duration { return time.Since(w.Start) }
 
 func hashStr(h uint64, parts ...string) uint64 {
-	f := fnv.New64a()
-	var b [8]byte
-	for i := 0; i < 8; i++ {
-		b[i] = byte(h >> (8 * i))
-	}
-	f.Write(b[:])
+	const prime = 1099511628211
+	h ^= 14695981039346656037
 	for _, p := range parts {
-		f.Write([]byte(p))
-		f.Write([]byte{0})
+		for i := 0; i < len(p); i++ {
+			h ^= uint64(p[i])
+			h *= prime
+		}
+		h *= prime
 	}
-	return f.Sum64()
+	return h
 }
 
 // options lists what may happen next. Index 0 is the benign default: keep
 // running the current task; else the lowest-id runnable task; else the first
 // source option (sources list oldest first); else advance time.
 func (w *World) options() []Option { // w.mu held
-	var opts []Option
-	// drop stale entries
-	rn := w.runnable[:0]
-	for _, t := range w.runnable {
-		if t.state == stRunnable {
-			rn = append(rn, t)
-		}
-	}
-	w.runnable = rn
-	sort.Slice(w.runnable, func(i, j int) bool { return w.runnable[i].ID < w.runnable[j].ID })
+	opts := w.optBuf[:0]
 	if w.cur != nil && w.cur.state == stRunnable {
-		opts = append(opts, Option{Key: w.cur.key, Class: 'T', Task: w.cur, Anchor: w.cur.key + "/" + strconv.Itoa(w.cur.Yields)})
+		opts = append(opts, Option{Key: w.cur.key, Class: 'T', Task: w.cur, AnchorN: w.cur.Yields})
 	}
 	for _, t := range w.runnable {
-		if t != w.cur {
-			opts = append(opts, Option{Key: t.key, Class: 'T', Task: t, Anchor: t.key + "/" + strconv.Itoa(t.Yields)})
+		if t != w.cur && t.state == stRunnable {
+			opts = append(opts, Option{Key: t.key, Class: 'T', Task: t, AnchorN: t.Yields})
 		}
 	}
 	w.mu.Unlock()
 	for _, s := range w.sources {
-		for _, o := range s() {
-			if o.Anchor == "" {
-				o.Anchor = o.Key
-			}
-			opts = append(opts, o)
-		}
+		opts = append(opts, s()...)
 	}
 	w.mu.Lock()
 	if !w.farFired {
-		opts = append(opts, Option{Key: "A", Class: 'A', Anchor: "A/" + strconv.Itoa(w.Advances)})
+		opts = append(opts, Option{Key: "A", Class: 'A', AnchorN: w.Advances})
 	}
+	w.optBuf = opts
 	return opts
+}
+
+// addRunnable keeps w.runnable sorted by task id.
+func (w *World) addRunnable(t *Task) { // w.mu held
+	i := len(w.runnable)
+	w.runnable = append(w.runnable, t)
+	for i > 0 && w.runnable[i-1].ID > t.ID {
+		w.runnable[i] = w.runnable[i-1]
+		i--
+	}
+	w.runnable[i] = t
 }
 
 // findCycle looks for a cycle in the wait-for graph over sim locks.
 func (w *World) findCycle() string { // w.mu held
+	if w.lockBlocked < 2 {
+		return ""
+	}
 	var blocked []*Task
 	for _, t := range w.all {
 		if t.state == stBlocked && t.waitLock != nil {
@@ -468,7 +484,7 @@ func (w *World) Run(done func() bool) End {
 		}
 		o := opts[idx]
 		if idx != 0 || param != 0 {
-			w.Trace = append(w.Trace, Decision{Step: w.Steps, Anchor: opts[0].Anchor, Key: o.Key, Param: param})
+			w.Trace = append(w.Trace, Decision{Step: w.Steps, Anchor: opts[0].AnchorStr(), Key: o.Key, Param: param})
 			w.NonDef++
 		}
 		w.Steps++
